@@ -12,6 +12,7 @@ import (
 	"encoding/json"
 	"flag"
 	"fmt"
+	"go/types"
 	"os"
 	"os/exec"
 	"path/filepath"
@@ -74,6 +75,10 @@ func main() {
 			fmt.Fprintln(os.Stderr, err)
 			os.Exit(2)
 		}
+		funcAliases = map[string]*types.Func{}
+		for _, n := range p.computeAliases(loadKnownFuncs()) {
+			fmt.Println("//", n)
+		}
 		ov, notes := p.normaliseOnce(loadKnownFuncs(), 1)
 		for _, n := range notes {
 			fmt.Println("//", n)
@@ -85,6 +90,24 @@ func main() {
 			if _, err := loadRaw(repo, BuildConfig{}, ov); err != nil {
 				fmt.Println("// TYPECHECK:", err)
 			}
+		}
+	case "normalised":
+		// debug: the text of the files as analysed after all normalisation rounds
+		knownFuncsFile = "/verif/known_functions.txt"
+		repo := "/repo"
+		if len(os.Args) > 2 {
+			repo = os.Args[2]
+		}
+		p, err := Load(repo, BuildConfig{}, nil)
+		if err != nil {
+			fmt.Fprintln(os.Stderr, err)
+			os.Exit(2)
+		}
+		for _, n := range p.Normalised {
+			fmt.Println("//", n)
+		}
+		for f, b := range p.overlayIn {
+			fmt.Printf("// ===== %s\n%s\n", f, b)
 		}
 	case "funcs":
 		// the vocabulary of known functions of a tree (default /repo): one printable name per line
